@@ -19,13 +19,13 @@ pub open spec fn sum(s: Seq<u8>) -> int
 
 pub open spec fn cksum_ok(s: Seq<u8>) -> bool { sum(s) % 256 == 0 }
 
-pub open spec fn le16(x: u16) -> Seq<u8> { seq![(x & 0xff) as u8, ((x >> 8) & 0xff) as u8] }
+pub open spec fn le16(x: u16) -> Seq<u8> { seq![(x % 256) as u8, (x / 256) as u8] }
 pub open spec fn le32(x: u32) -> Seq<u8> {
-    seq![(x & 0xff) as u8, ((x >> 8) & 0xff) as u8, ((x >> 16) & 0xff) as u8, ((x >> 24) & 0xff) as u8]
+    seq![(x % 256) as u8, ((x / 0x100) % 256) as u8, ((x / 0x1_0000) % 256) as u8, (x / 0x100_0000) as u8]
 }
 pub open spec fn le64(x: u64) -> Seq<u8> {
-    seq![(x & 0xff) as u8, ((x >> 8) & 0xff) as u8, ((x >> 16) & 0xff) as u8, ((x >> 24) & 0xff) as u8,
-         ((x >> 32) & 0xff) as u8, ((x >> 40) & 0xff) as u8, ((x >> 48) & 0xff) as u8, ((x >> 56) & 0xff) as u8]
+    seq![(x % 256) as u8, ((x / 0x100) % 256) as u8, ((x / 0x1_0000) % 256) as u8, ((x / 0x100_0000) % 256) as u8,
+         ((x / 0x1_0000_0000) % 256) as u8, ((x / 0x100_0000_0000) % 256) as u8, ((x / 0x1_0000_0000_0000) % 256) as u8, (x / 0x100_0000_0000_0000) as u8]
 }
 pub open spec fn zeros(n: nat) -> Seq<u8> { Seq::new(n, |i: int| 0u8) }
 
@@ -398,3 +398,37 @@ pub proof fn lemma_uuid_round_trip(s: Seq<char>, i: int, j: int)
     requires hex2(s, i, j)
     ensures hx(s, i, j) as int / 16 == hex_val(s[i]), hx(s, i, j) as int % 16 == hex_val(s[j])
 { }
+
+/// modular-arithmetic core of the incremental checksum step (C01)
+pub proof fn lemma_ck_arith(a0: int, c0: int, a1: int, c1: int, r: int, l0: int, l1: int, b: int, s: int, se: int)
+    requires
+        (a0 - (r + l0 + b)) % 256 == 0,
+        (a1 - (a0 - l0 + l1 + s)) % 256 == 0,
+        (s - se) % 256 == 0,
+    ensures (a1 - (r + l1 + b + se)) % 256 == 0
+{
+    let x = a1 - (a0 - l0 + l1 + s);
+    let y = a0 - (r + l0 + b);
+    let z = s - se;
+    assert(a1 - (r + l1 + b + se) == x + y + z);
+    assert((x + y + z) % 256 == 0) by {
+        assert(x % 256 == 0 && y % 256 == 0 && z % 256 == 0);
+        assert((x + y) % 256 == 0);
+    }
+}
+
+pub proof fn lemma_seq1_inj(a: u8, b: u8)
+    requires seq![a] == seq![b]
+    ensures a == b
+{ assert(seq![a][0] == a); assert(seq![b][0] == b); }
+
+pub proof fn lemma_sum_le16(x: u16)
+    ensures sum(le16(x)) == (x % 256) + (x / 256)
+{ reveal_with_fuel(sum, 3); }
+pub proof fn lemma_sum_le32(x: u32)
+    ensures sum(le32(x)) == (x % 256) + ((x / 0x100) % 256) + ((x / 0x1_0000) % 256) + (x / 0x100_0000)
+{ reveal_with_fuel(sum, 5); }
+pub proof fn lemma_sum_le64(x: u64)
+    ensures sum(le64(x)) == (x % 256) + ((x / 0x100) % 256) + ((x / 0x1_0000) % 256) + ((x / 0x100_0000) % 256)
+        + ((x / 0x1_0000_0000) % 256) + ((x / 0x100_0000_0000) % 256) + ((x / 0x1_0000_0000_0000) % 256) + (x / 0x100_0000_0000_0000)
+{ reveal_with_fuel(sum, 9); }
